@@ -81,6 +81,10 @@ class EdgeLandmark(BaseEdge):
         if not isinstance(self.offset, pose_type) or not isinstance(self.estimate, point_type):
             return False
 
+        # The second vertex must be a point (landmark) with the same dimensionality as the position of the first pose
+        if not isinstance(self.vertices[1].pose, (PoseR2, PoseR3)) or len(self.vertices[0].pose.position) != len(self.vertices[1].pose.position):  # fmt: skip
+            return False
+
         # The information matrix must be the correct size
         n = point_type.COMPACT_DIMENSIONALITY
         return self.information.shape == (n, n)
